@@ -95,10 +95,10 @@ func newIdxScenario(ids []string) *idxScenario {
 	rolesSym := sc.store.AddSetSymbol("roles", ast.NodeTypeString)
 	sc.rolesIdx = sc.store.AddSetIndex(rolesSym)
 
-	sc.names = []string{"A", "B", ""}
+	sc.names = []string{"A", "AB", ""} // one name is a prefix of the other on purpose
 	sc.aliases = []*string{nil, world.StrP("X"), world.StrP("")}
-	sc.roleAtoms = []string{"r", "s"}
-	sc.roleSets = [][]string{nil, {"r"}, {"s"}, {"r", "s"}}
+	sc.roleAtoms = []string{"r", "rs"}
+	sc.roleSets = [][]string{nil, {"r"}, {"rs"}, {"r", "rs"}}
 	sc.buildOps()
 	return sc
 }
@@ -307,7 +307,7 @@ func (sc *idxScenario) Normalize(t *dump.Tree) *dump.Tree {
 func (sc *idxScenario) Invariant(tx *bbolt.Tx, mm explore.Model) error {
 	m := mm.(*idxModel)
 	// unique index reads
-	for _, name := range []string{"A", "B", "C"} {
+	for _, name := range []string{"A", "AB", "B", "C"} {
 		want := ""
 		for id, it := range m.items {
 			if it.name == name {
@@ -403,10 +403,10 @@ func runE1(rep *report.Report, sc explore.Scenario, cfg explore.Config) *explore
 func C03(tier string) int {
 	rep := report.New("C03", tier, "model_checking")
 	rep.Assume("bbolt transactions are atomic and isolated (trusted base)")
-	rep.Assume("universe: ids e1,e2(,e3); name in {A,B,\"\"}; alias in {null,X,\"\"}; roles subsets of {r,s}")
+	rep.Assume("universe: ids e1,e1x(,e2) and values A,AB / r,rs chosen so that one is a prefix of the other; alias in {null,X,\"\"}")
 	rep.Set("rule", "BFS over canonical database images; every state x every transaction program; oracle = complete image rendered from reference model + API reads")
 
-	sc := newIdxScenario([]string{"e1", "e2"})
+	sc := newIdxScenario([]string{"e1", "e1x"})
 	n := len(sc.Ops())
 	rep.Set("alphabet_size_2ids", n)
 	if tier == "quick" {
@@ -414,9 +414,9 @@ func C03(tier string) int {
 	} else {
 		runE1(rep, sc, explore.Config{Programs: explore.SingleOps(n)})
 		// two operations per transaction (accepted and rejected in either position)
-		sc2 := newIdxScenario([]string{"e1", "e2"})
+		sc2 := newIdxScenario([]string{"e1", "e1x"})
 		runE1(rep, &renamed{Scenario: sc2, name: "S_idx[2 ids, 2-op tx]"}, explore.Config{Programs: pairsSubset(sc2.Ops())})
-		sc3 := newIdxScenario([]string{"e1", "e2", "e3"})
+		sc3 := newIdxScenario([]string{"e1", "e1x", "e2"})
 		runE1(rep, sc3, explore.Config{Programs: explore.SingleOps(len(sc3.Ops())), MaxTrans: 6_000_000})
 	}
 	return rep.Finish()
